@@ -111,8 +111,7 @@ async fn observe(mgr: &mut LogInnerManager, m: &LogModel, what: &str, check_term
         if info.index != last.index {
             return Err(format!("{}: last log index {} != {}", what, info.index, last.index));
         }
-        // the term is only asserted while the last entry is still retained (not split off)
-        if check_term && last.index >= m.floor && info.term != last.term {
+        if check_term && info.term != last.term {
             return Err(format!("{}: last log term {} != {} (index {})", what, info.term, last.term, last.index));
         }
     }
